@@ -129,22 +129,24 @@ def do_blocked(name, G, nodes, known, seed):
     if not hasattr(G, name):
         return None
     f = getattr(G, name)
+    v3 = seed % 3
     if name == 'add_edge':
-        return safe(f, a, b) if seed % 2 else safe(f, a, '__new__', w=1)
+        return (safe(f, a, b), safe(f, a, '__new__', w=1), safe(f, u_of_edge=b, v_of_edge=a) if False else safe(f, b, a, t=3))[v3]
     if name == 'add_edges_from':
-        return safe(f, [(a, b), (b, '__new__')])
+        return (safe(f, [(a, b), (b, '__new__')]), safe(f, ((x, y) for x, y in [(a, b)])), safe(f, [(a, b, {'t': [[0, 1]]})], w=2))[v3]
     if name == 'add_weighted_edges_from':
-        return safe(f, [(a, b, 0.5)])
+        return (safe(f, [(a, b, 0.5)]), safe(f, [(a, '__new__', 1)], weight='w'), safe(f, []))[v3]
     if name == 'update':
-        return safe(f, edges=[(a, b)]) if seed % 2 else safe(f, [(a, '__new__')], [a, '__other__'])
+        g = nx.DiGraph([(a, '__new__')]) if G.is_directed() else nx.Graph([(a, '__new__')])
+        return (safe(f, edges=[(a, b)]), safe(f, [(a, '__new__')], [a, '__other__']), safe(f, g))[v3]
     if name == 'remove_edge':
-        return safe(f, a, b)
+        return (safe(f, a, b), safe(f, a, '__absent__'), safe(f, b, a))[v3]
     if name == 'remove_edges_from':
-        return safe(f, [(a, b)])
+        return (safe(f, [(a, b)]), safe(f, []), safe(f, [(a, b, 'k')]))[v3]
     if name == 'remove_node':
-        return safe(f, a)
+        return (safe(f, a), safe(f, '__absent__'), safe(f, b))[v3]
     if name == 'remove_nodes_from':
-        return safe(f, [a, b])
+        return (safe(f, [a, b]), safe(f, []), safe(f, iter([a])))[v3]
     if name in ('edges_iter', 'in_edges', 'out_edges', 'in_edges_iter', 'out_edges_iter'):
         return safe(f) if seed % 2 else safe(f, [a])
     raise AssertionError(name)
@@ -182,6 +184,7 @@ def run_case(case, rec):
                 else:
                     rec.check('C19.blocked.untouched', False, '%s: observe raised %r / %r' % (ctx, before, after))
                 rec.classify('blocked:' + name)
+                rec.classify('blocked form %d' % (seed % 3))
                 blocked_seen = True
                 wellformed(rec, G, 'after ' + ctx)
             else:
